@@ -5,6 +5,7 @@ import (
 	"strings"
 
 	"github.com/ozanh/ugo"
+	"github.com/ozanh/ugo/token"
 )
 
 // (case id run02 <opt|noopt> <src hex>) -> (ok <value>) | (err <error name>) | (compile-error <first line>)
@@ -26,4 +27,42 @@ func runRun02(args []*Sexp) *Sexp {
 		return L(A("err"), A(string(atomBytes(r.List[1]))))
 	}
 	return r
+}
+
+var tokNames = map[string]string{"+": "add", "-": "sub", "*": "mul", "/": "quo", "%": "rem", "&": "and", "|": "or", "^": "xor",
+	"&^": "andnot", "<<": "shl", ">>": "shr", "<": "lt", "<=": "le", ">": "gt", ">=": "ge", "!": "not"}
+
+// (case id exprcomp <src hex> (args v...)) -> (exprcomp (code (pos NAME operand...)...) <result>)
+// the script is `param (...)` + `return <expr>`; compiled without the optimizer
+func runExprComp(args []*Sexp) *Sexp {
+	bc, err, pan := compileSrc(atomBytes(args[0]), ugo.CompilerOptions{NoOptimize: true})
+	if pan != nil || err != nil {
+		return L(A("compile-error"), A(sanitize(fmt.Sprint(err, pan))))
+	}
+	code := L(A("code"))
+	ugo.IterateInstructions(bc.Main.Instructions, func(pos int, op ugo.Opcode, operands []int, offset int) bool {
+		it := L(A(fmt.Sprint(pos)), A(ugo.OpcodeNames[op]))
+		for _, o := range operands {
+			if op == ugo.OpBinaryOp || op == ugo.OpUnary {
+				it.List = append(it.List, A(tokNames[token.Token(o).String()]))
+			} else {
+				it.List = append(it.List, A(fmt.Sprint(o)))
+			}
+		}
+		code.List = append(code.List, it)
+		return true
+	})
+	consts := L(A("consts"))
+	for _, c := range bc.Constants {
+		consts.List = append(consts.List, SexpOfValue(c))
+	}
+	var vals []ugo.Object
+	for _, a := range args[1].List[1:] {
+		vals = append(vals, ValueOfSexp(a))
+	}
+	r := runBytecode(bc, nil, vals...)
+	if r.Head() == "err" {
+		r = L(A("err"))
+	}
+	return L(A("exprcomp"), code, consts, r)
 }
